@@ -102,6 +102,9 @@ var c01Near = []string{
 	"BEGIN { x = 1 ?? 2 }", "{ print $.a?? }", "function f(??) { return 1 } { f() }", "{ a = [1, 2]; print a[??] }",
 	"{ x = match ($.a) { ?? => 1 } }", "{ printf('%??s', 'x') }", "$.a ?? 1 { print }", "{ for (k ?? $) { print k } }",
 	"{ print 'a??b' }", "{ x = 1??2 }", "{ o = {k??: 1} }", "BEGIN { print /a??b/ }", "{ print $??index }",
+	// the bytes inside quoted text in every place quoted text can stand
+	"{ o = {'k??': 1, \"j\": 2}; print o }", "{ o = {\"??\": $.a}; print o }", "{ print {a: 1}['??'], $['??'] }", "{ x = match ('a') { '??' => 1, z => 2 } }",
+	"{ print '??'.length(), \"??\".upper() }", "{ printf('??', 1) }", "{ x = 'a' ~ '??' }", "{ for (k, v in {'??': 1}) print k }", "{ o.k = 1; print o['??'] }",
 }
 
 // VHC01NearGrammar: grammatical templates with two fully symbolic bytes spliced in.
@@ -119,6 +122,7 @@ func VHC01NearGrammar() {
 var c01CliProgs = []string{
 	"BEGIN {", "BEGIN { print 1 +", "", "BEGIN { x = }", "BEGIN { print 1/0 }", "{ print $.a.b.c() }", "BEGIN { print 'abc }",
 	"\u00e9@", "BEGIN { print 1 }\n\n}", "BEGIN { print 1 }", "{ print $nosuch }", "function f( {", "BEGIN { x = /ab }", "#",
+	"BEGIN { exit }", "{ exit }", "BEGINFILE { exit }", "{ next }",
 }
 
 var c01CliSels = []string{"$", "", "$.(", "$.a(", "1/0", " ", "$nosuch", "'", "$.k["}
@@ -143,7 +147,19 @@ func VHC01Cli() {
 	} else {
 		args = append(args, prog)
 	}
-	switch vh.Choose("input", 4) {
+	// -o: nothing, standard output, a file (after the selectors, before the program)
+	switch vh.Choose("omode", 3) {
+	case 1:
+		args = append([]string{"-o", "-"}, args...)
+	case 2:
+		args = append([]string{"-o", "out.json"}, args...)
+	}
+	switch vh.Choose("input", 6) {
+	case 4: // an input file without a single value in it
+		p.Data["in.json"] = &vh.DocStream{Items: []any{}}
+		args = append(args, "in.json")
+	case 5: // nothing on standard input
+		p.Stdin = &vh.DocStream{Items: []any{}}
 	case 0:
 		p.Data["in.json"] = &vh.DocStream{Items: []any{map[string]any{"a": 1.0, "k": []any{1.0}}}}
 		args = append(args, "in.json")
